@@ -59,6 +59,8 @@ theorem c08_step_keeps_latch (sem : Sem σ δ) (s : RState σ δ) (h : s.faulted
   | setWatchdog a => simp [step, h]
   | setSafe sf => simp [step, h]
   | dbgWrite a v => simp [step, h]
+  | forceIo a v => simp [step, h]
+  | releaseIo a => simp [step, h]
   | restart m => simp [Op.resets] at hop
   | clearFault => simp [Op.resets] at hop
 
@@ -160,6 +162,8 @@ theorem c08_error_latches (sem : Sem σ δ) (s : RState σ δ) (op : Op) (e : Er
   | setWatchdog a => simp [step] at h
   | setSafe sf => simp [step] at h
   | dbgWrite a v => simp [step] at h
+  | forceIo a v => simp [step] at h
+  | releaseIo a => simp [step] at h
   | restart m => simp [step] at h
   | clearFault => simp [step] at h
 
@@ -174,9 +178,9 @@ theorem c08_fault_ops (sem : Sem σ δ) (s : RState σ δ) :
   have h2 := c08_apply_fault_latches sem s .simulationFault (FaultDecision.fromFaultPolicy s.policy)
   exact ⟨rfl, rfl, h1.2.2.1, h1.1, h2.2.2.1, h2.1⟩
 
-/-- **Outcome of a cycle on a resource that is not faulted.**  With `ph` the result of the seven
-phases (driver reads, debug writes, binding latch, tasks and background programs, binding
-publish, driver writes, retain save) run with first-failure semantics:
+/-- **Outcome of a cycle on a resource that is not faulted.**  With `ph` the result of the nine
+phases (driver reads, debug writes, forced I/O values, binding latch, tasks and background
+programs, binding publish, forced I/O values again, driver writes, retain save) run with first-failure semantics:
 * if no phase fails the cycle succeeds, the latch stays open and the counter advances;
 * if a phase fails with `e` the cycle returns `e` and the state is exactly
   `record_fault` (= `apply_fault` with the fault policy's decision) applied to the state the
@@ -207,7 +211,7 @@ theorem c08_cycle_outcome (sem : Sem σ δ) (s : RState σ δ) (hs : s.faulted =
       (FaultDecision.fromFaultPolicy (runPhases (cyclePhases sem) s).st.policy)
     exact ⟨trivial, trivial, trivial, this.1, this.2.1⟩
 
-/-- **Fault sources, phase level.**  Whichever of the seven phases of the cycle is the first to
+/-- **Fault sources, phase level.**  Whichever of the nine phases of the cycle is the first to
 fail — after any number of earlier phases succeeded — its error is what `execute_cycle` returns,
 the resource is faulted with that error as `last_fault`, and the state is `record_fault` applied
 to the state the failing phase left: no later phase runs (in particular a fault before the
@@ -247,7 +251,8 @@ theorem c08_fault_sources_complete (sem : Sem σ δ) (s : RState σ δ) (hs : s.
 
 /-- **Fault sources, component level**: what makes each phase fail.
 * driver reads: the first driver whose `read_inputs` fails (later drivers are not asked);
-* queued debug writes: the first rejected write;
+* queued debug writes, forced I/O values (before the latch and again after the publish): the
+  first rejected write;
 * latch / publish: the error of `IoInterface::read_inputs` / `write_outputs`;
 * tasks and programs: an error of `collect_ready_tasks`, else the first program of the plan that
   faults — at whatever statement, however deeply nested: `exec` is arbitrary — (later programs
@@ -257,6 +262,7 @@ theorem c08_fault_sources_complete (sem : Sem σ δ) (s : RState σ δ) (hs : s.
 theorem c08_phase_errors (sem : Sem σ δ) (s : RState σ δ) :
     (phaseRead sem s).err = (readDrivers sem (List.range sem.nDrivers) s.env s.io.inputs).err ∧
     (phaseDebug s).err = (applyWrites s.dbgQ s.io).2 ∧
+    (phaseForce s).err = (applyWrites s.forced s.io).2 ∧
     (phaseLatch sem s).err = (sem.latch s.io s.store).2 ∧
     (phaseTasks sem s).err =
       (match (sem.plan s.now s.store).2.2 with
@@ -265,7 +271,7 @@ theorem c08_phase_errors (sem : Sem σ δ) (s : RState σ δ) :
     (phasePublish sem s).err = (sem.publish s.store s.io).2 ∧
     (phaseWrite sem s).err = (writeDrivers sem (List.range sem.nDrivers) s.env s.io.outputs).err ∧
     (phasePersist sem s).err = (sem.persist s.now s.store s.env).2 := by
-  refine ⟨rfl, rfl, rfl, ?_, rfl, rfl, rfl⟩
+  refine ⟨rfl, rfl, rfl, rfl, ?_, rfl, rfl, rfl⟩
   cases h : (sem.plan s.now s.store).2.2 <;> simp [phaseTasks, h]
 
 /-- A runtime error in **any** program of the plan — first, middle or last task, background
@@ -440,7 +446,7 @@ def toyState : RState Nat Nat :=
   { faulted := false, lastFault := none, policy := .safeHalt, wdAction := .safeHalt,
     safe := [(toyBad, .byte 1), (toyAddr, .byte 90)],
     io := { inputs := [], outputs := [], memory := [], hier := [] }, store := 0, env := 0, dbgQ := [],
-    now := 0, cycles := 0 }
+    forced := [], now := 0, cycles := 0 }
 
 /-- The hypotheses of the theorems above are satisfiable, and the witness of the repaired defect
 behaves: two cycles succeed, the third faults with `DivisionByZero`; although the first
@@ -461,7 +467,7 @@ example :
 example : (∀ op ∈ [Op.cycle, .advance 5, .watchdog, .cycle, .setPolicy .halt, .simFault, .cycle],
     op.resets = false) := by decide
 
-example : cyclePhases toy = [phaseRead toy, phaseDebug, phaseLatch toy] ++ phaseTasks toy ::
-    [phasePublish toy, phaseWrite toy, phasePersist toy] := rfl
+example : cyclePhases toy = [phaseRead toy, phaseDebug, phaseForce, phaseLatch toy] ++ phaseTasks toy ::
+    [phasePublish toy, phaseForce, phaseWrite toy, phasePersist toy] := rfl
 
 end TrustVerif.C08
